@@ -52,7 +52,7 @@ class ExprProp(Prop):
 class C06(ExprProp):
     """Theorems (Props/C06.lean): for every well-formed expression and every admissible layout of blanks the parser model yields a tree that represents it (`C06_parse_render`, any length, nesting, calls), the evaluator returns its denotation (`C06_query`), layouts do not matter, parentheses work anywhere. Correspondence: all operator sequences up to five with every parenthesisation and layout (also with the `**` spelling of power), random deeper expressions; results and tree shapes compared."""
     id = "C06"
-    needs_knobs = True
+    needs_knobs = ("op",)
     module = "Anything.Props.C06"
     trusted = ["Spec.Arith (precedence table, WF, renderer) is human input"]
 
@@ -119,7 +119,7 @@ class C01(ExprProp):
 class C10(ExprProp):
     """Theorems C10_floor/ceil/round(+_char)/builtin_*/arity_*: num-rational's integer algorithms (mirrored in the model) equal the order-theoretic floor, ceiling, round-half-away and round-to-n-digits for every rational; unit carried through; wrong arity is an error. Correspondence on a boundary grid. End to end: `C10_query` (Props/C10Query.lean) — calls written as queries over arbitrary argument expressions."""
     id = "C10"
-    needs_knobs = True
+    needs_knobs = ("builtins",)
     extra_modules = ["Anything.Props.C10Query"]
     module = "Anything.Props.C10"
     trusted = ["Spec.Arith.floorI/ceilI/roundHalfAway/roundTo are human input (order-theoretic definitions)"]
